@@ -158,9 +158,11 @@ fn cfg_strategy_inner(p: Profile, thorough: bool) -> BoxedStrategy<Cfg> {
         any::<bool>(),
         any::<bool>(),
         2u32..=4,
+        any::<bool>(),
     );
-    base.prop_flat_map(move |(clients, max_size, policy, slots, b1, b2, b3, period)| {
+    base.prop_flat_map(move |(clients, max_size, policy, slots, b1, b2, b3, period, b4)| {
         let mut c = Cfg { clients, max_size, policy, slots, period, ..Cfg::default() };
+        c.bundle = b4 && matches!(p, Profile::General | Profile::Structural | Profile::Vis | Profile::Lossy | Profile::Faults);
         let vis = prop_oneof![Just(0u8), Just(1u8), Just(2u8)];
         match p {
             Profile::General => {
@@ -313,7 +315,10 @@ pub fn step_strategy(cfg: &Cfg, p: Profile) -> BoxedStrategy<Step> {
     let split = matches!(p, Profile::Split);
     let tight = matches!(p, Profile::Tight);
     let sessions = matches!(p, Profile::Sessions);
-    let kinds: Vec<K> = if tight { vec![K::A, K::B, K::S] } else if split { vec![K::A, K::C, K::C] } else { KS.to_vec() };
+    let mut kinds: Vec<K> = if tight { vec![K::A, K::B, K::S] } else if split { vec![K::A, K::C, K::C] } else { KS.to_vec() };
+    if cfg.bundle {
+        kinds.extend([K::X, K::Y, K::X, K::Y]);
+    }
     let k_strategy = move || {
         let kinds = kinds.clone();
         (0..kinds.len()).prop_map(move |i| kinds[i])
